@@ -274,7 +274,7 @@ def init_rows(ctx):
         return _INIT[ctx.cfg]
     EFF = [r'numbers::get_highest_index$', r'numbers::number_infix$', r'numbers::index_for_rcurrent$', r'timestamps::creation_timestamp_of_currentfile$',
            r'timestamps::latest_timestamp_file$', r'timestamps::infix_from_timestamp$', r'state::open_log_file$', r'RollState::new$',
-           r'remove_or_compress_too_old_logfiles$', r'start_cleanup_thread$', r'collision_free_infix_for_rotated_file$', r'^chrono::Local::now$']
+           r'remove_or_compress_too_old_logfiles(_impl)?$', r'start_cleanup_thread$', r'collision_free_infix_for_rotated_file$', r'^chrono::Local::now$']
     I = FDI(ctx.f, effects=EFF, no_inline=EFF + [r'infix_filter$', r'writes_direct$', r'InfixFormat::custom$', r'do_cleanup$'])
     rows = I.run('writers::file_log_writer::state::State::initialize_with_rotation')
     _INIT[ctx.cfg] = rows
